@@ -1,16 +1,19 @@
 #!/bin/sh
-# tools/verify_seed.sh <ID> <n>: confirm a seeded change from /tmp/seed-<ID>/mut<n> in the scratch worktree /tmp/wt-<ID>:
-# demo passes without it, fails with it, the existing suite still passes with it.  Writes verify.json next to it.
-id="$1"; n="$2"; wt=/tmp/wt-$id; sd=/tmp/seed-$id/mut$n
-[ -f $wt/src/execnet/_version.py ] || cp /repo/src/execnet/_version.py $wt/src/execnet/_version.py
-git -C $wt checkout -q -- . 
+# tools/verify_seed.sh <ID> <n>: confirm a seeded change from /tmp/seed-<ID>/mut<n> in a fresh scratch worktree of /repo's HEAD:
+# demo passes without it, fails with it, the existing suite still passes with it.  Writes verify.json next to it; removes the worktree.
+id="$1"; n="$2"; wt=/tmp/wtv-$id-$n; sd=/tmp/seed-$id/mut$n
+git -C /repo worktree remove --force $wt 2>/dev/null
+git -C /repo worktree add -q --detach $wt HEAD || exit 2
+cp /repo/src/execnet/_version.py $wt/src/execnet/_version.py
 cd $sd
-PYTHONPATH=$wt/src timeout 600 /venv/bin/python demo.py > demo_clean.log 2>&1; rc_clean=$?
-git -C $wt apply $sd/patch.diff || { echo "{\"applies\": false}" > verify.json; exit 1; }
-PYTHONPATH=$wt/src timeout 600 /venv/bin/python demo.py > demo_mut.log 2>&1; rc_mut=$?
+sed "s#/tmp/wt-$id#$wt#g" demo.py > demo_v.py
+PYTHONPATH=$wt/src timeout 600 /venv/bin/python demo_v.py > demo_clean.log 2>&1; rc_clean=$?
+(git -C $wt apply $sd/patch.diff 2>/dev/null || (cd $wt && patch -p1 -F3 -s --no-backup-if-mismatch < $sd/patch.diff)) || { echo "{\"applies\": false}" > verify.json; git -C /repo worktree remove --force $wt; exit 1; }
+PYTHONPATH=$wt/src timeout 600 /venv/bin/python demo_v.py > demo_mut.log 2>&1; rc_mut=$?
 (cd $wt && env -u EXECNET_VERIF PYTHONPATH=$wt/src timeout 1500 /venv/bin/python -m pytest -q -p no:cacheprovider --timeout=900 testing > $sd/suite.log 2>&1)
 summary=$(grep -E "passed|failed" $sd/suite.log | tail -1)
-failed=$(grep -E "^FAILED" $sd/suite.log | grep -v test_dont_write_bytecode | tr '\n' ';')
-git -C $wt checkout -q -- .
-printf '{"applies": true, "demo_rc_clean": %s, "demo_rc_mutated": %s, "suite_summary": "%s", "suite_failed_other_than_baseline": "%s"}\n' "$rc_clean" "$rc_mut" "$summary" "$failed" > verify.json
+failed=$(grep -E "^FAILED" $sd/suite.log | grep -v test_dont_write_bytecode | cut -c1-90 | tr '\n' ';')
+rm -f demo_v.py
+git -C /repo worktree remove --force $wt
+printf '{"applies": true, "base": "%s", "demo_rc_clean": %s, "demo_rc_mutated": %s, "suite_summary": "%s", "suite_failed_other_than_baseline": "%s"}\n' "$(git -C /repo rev-parse --short HEAD)" "$rc_clean" "$rc_mut" "$summary" "$failed" > verify.json
 cat verify.json
